@@ -108,8 +108,18 @@ func (s *SessionStore) setSessionCookie(rw http.ResponseWriter, req *http.Reques
 	if err != nil {
 		return err
 	}
+	written := make(map[string]struct{}, len(cookies))
 	for _, c := range cookies {
 		http.SetCookie(rw, c)
+		written[c.Name] = struct{}{}
+	}
+	// Expire cookies left over from an earlier save with a different number of
+	// parts, otherwise they would be loaded instead of / joined to the new ones.
+	for _, c := range req.Cookies() {
+		if _, ok := written[c.Name]; !ok && isSessionCookieName(s.Cookie.Name, c.Name) {
+			http.SetCookie(rw, s.makeCookie(req, c.Name, "", time.Hour*-1))
+			written[c.Name] = struct{}{}
+		}
 	}
 	return nil
 }
